@@ -9,4 +9,4 @@ CONSTANTS
 INIT Init
 NEXT Next
 CHECK_DEADLOCK FALSE
-INVARIANTS Inv_VerifyIffSignedInPosition Inv_BindsMessage PrintCase
+INVARIANTS Inv_VerifyIffSignedInPosition Inv_BindsMessage Inv_EmptySlotNeverVerifies Inv_AllGoodSlotsVerify PrintCase
